@@ -181,19 +181,26 @@ def showOutcome : Outcome → String
     let ops := match op with | .encrypt => "e" | .decrypt => "d" | .verify => "v"
     let outs := match out with | some o => hexB o | none => "null"
     let ks := match key with | some k => hexB k | none => "random"
-    s!"run:{ops}:{hexB inp}:{outs}:{ks}:{c}:{h}:{if ne then 1 else 0}"
+    s!"run {ops} {hexB inp} {outs} {ks} {c} {h} {if ne then 1 else 0}"
 
-/-- `cli <defaultOpens 0|1> tok tok …` -/
+def parseToks (dflt : String) (toks : List String) : Option (Except Fault Outcome) :=
+  (toks.mapM tokOf?).map fun ts => getVOpt ts (dflt = "1")
+
+/-- `cli <defaultOpens 0|1> tok tok …` → the outcome; `clistatus <defaultOpens> <opResult 0|1> tok …` → the exit status -/
 def driverCli (ws : List String) : String :=
   match ws with
-  | dflt :: toks =>
-    match toks.mapM tokOf? with
+  | "status" :: dflt :: opres :: toks =>
+    match parseToks dflt toks with
     | none => "bad-op"
-    | some ts =>
-      match getVOpt ts (dflt = "1") with
-      | .ok o => showOutcome o
-      | .error .outOfBounds => "fault:outOfBounds"
-      | .error .nullDeref => "fault:nullDeref"
+    | some (.ok o) => toString (exitStatus o (opres = "1"))
+    | some (.error .outOfBounds) => "fault:outOfBounds"
+    | some (.error .nullDeref) => "fault:nullDeref"
+  | dflt :: toks =>
+    match parseToks dflt toks with
+    | none => "bad-op"
+    | some (.ok o) => showOutcome o
+    | some (.error .outOfBounds) => "fault:outOfBounds"
+    | some (.error .nullDeref) => "fault:nullDeref"
   | _ => "bad-op"
 
 end Wencry.Model.Cli
